@@ -182,3 +182,19 @@ MANIFEST_TEXT['C03'] = dict(
                'of <=3 characters, every units text of <=3 characters.',
     level_note='Trusted: CrossHair/z3, PLY, jinja2 tojson. Template checked statically to be a single mib|tojson output.')
 _finalise()
+
+PROPS['C15'] = dict(
+    modules=['harness.c15_texts'], level='other', files=TOK_FILES + ['pysmi/codegen/templates/pysnmp/mib-definitions.j2'],
+    explanation=XH + '. C15: each text-bearing clause with one symbolic quoted string, symbolic genTexts and text filter, through the real '
+                'parser and JSON code generator; pysnmp side: z3 regex query over the real QUOTED_STRING language vs the safe language of each '
+                'template paste site, counterexamples replayed by executing the generated module.',
+    functions=TOK_FUNCS + ['default text filter re.sub(r"\\s+", " ", text) (CrossHair regex model)'], stubs=TOK_STUBS,
+    bounds='one text of <=3 (quick) / <=4 (thorough) characters over the full character domain except the double quote',
+    outside=['wordwrap filter and the rest of the pysnmp template beyond paste-site classification', 'pysnmp setters', 'longer texts'],
+    assumptions=[])
+MANIFEST_TEXT['C15'] = dict(
+    technique='CrossHair symbolic execution (one symbolic text per clause) + z3 regex-theory paste-site query with executed replays', smt=True,
+    level_text='JSON side solver-exhaustive within bounds for every text-bearing clause x genTexts x filter; pysnmp side partial: language-level '
+               'paste-site safety decided by z3, witnesses executed.',
+    level_note='Trusted: CrossHair regex model for \\s+, z3 regex theory, Jinja2. Texts longer than the bound are outside the JSON-side claim.')
+_finalise()
